@@ -373,6 +373,12 @@ def gen_cases(rng, tier):
                     "Deseasonalizer": ["transform", "inverse_transform", "update"],
                     "Detrender": ["transform", "inverse_transform", "update"]}
     for c in hist_classes:
+        # the fixed short histories of the property text, for every method of the class
+        for m in hist_classes[c]:
+            cases.append({"kind": "tree_hist", "cls": c, "events": [["apply", m]]})
+            cases.append({"kind": "tree_hist", "cls": c, "events": [["fit", False], ["apply", m]]})
+            cases.append({"kind": "tree_hist", "cls": c, "events": [["fit", True], ["apply", m],
+                                                                   ["clone"], ["apply", m]]})
         for _ in range(3 * per):
             evs = []
             for _ in range(rng.randint(2, 7)):
